@@ -4,7 +4,7 @@ open Infretis Infretis.Proto Infretis.Moves Infretis.Engine
 
 def showStatus : Status → String
   | .ACC => "ACC" | .KOB => "KOB" | .BTL => "BTL" | .BTX => "BTX" | .BWI => "BWI"
-  | .FTL => "FTL" | .FTX => "FTX" | .ZL => "0-L" | .NCR => "NCR" | .NSG => "NSG" | .FTXE => "FTX"
+  | .FTL => "FTL" | .FTX => "FTX" | .ZL => "0-L" | .NCR => "NCR"
 
 def showErr : Err → String
   | .value => "err:value" | .badDraw => "err:baddraw" | .zerodiv => "err:zerodiv"
